@@ -50,6 +50,7 @@ OBLIGATIONS = [
     "C06_src_apply_operation", "C06_src_readings", "C06_src_maps", "C06_src_utils", "C06_src_signatures",
     "C06_src_tree_ignores_masked", "C06_src_observed_closed", "C06_src_std_guard", "C06_src_std_sqrt_defined",
     "C06_src_std_nan_not_refused", "C06_src_unary", "C06_noise_std_observed_only", "C06_noise_std_observed_only_after_burn_in",
+    "C06_src_noise_rules", "C06_noise_std_is_rule", "C06_noise_std_saem_is_rule",
 ]
 
 
